@@ -1125,6 +1125,19 @@ def oracle_C13(objs, st=None):
     return st
 
 
+def oracle_C13_signs(st, thorough=False):
+    """untwisting with every sign pair on quasi-helical configurations (the angle uses helicity = sG spsi x winding)"""
+    from qsc import Qsc
+    names = ['r2 section 5.4', 'precise QH'] + (['2022 QH nfp2', '2022 QH nfp3 beta', '2022 QH nfp7'] if thorough else [])
+    for nm in names:
+        for sG in (1, -1):
+            for sp in (1, -1):
+                q = Qsc.from_paper(nm, sG=sG, spsi=sp, nphi=25, order='r3')
+                c = dict(kind='named', name=nm, kwargs=dict(name=nm, sG=sG, spsi=sp, nphi=25, order='r3'))
+                oracle_C13([(dict(kind='named', name=nm, kwargs=params_of(q)), q, None)], st)
+    return st
+
+
 def oracle_C13_synthetic(st, seed, count):
     """the real `_determine_helicity` on synthetic normals of known winding number, for every placement of the origin"""
     from qsc.calculate_r1 import _determine_helicity
@@ -1586,6 +1599,10 @@ def oracle_C16(objs, st=None, nhist=3, hlen=6, n_named=None, seed=0):
         a, b = Qsc.from_paper(name), Qsc(**kw)
         w = max((reldiff(v, numeric_attrs(b)[k]) for k, v in numeric_attrs(a).items() if k in numeric_attrs(b)), default=0.0)
         st.check('named configuration constructs exactly what the explicit constructor call does', w, 0.0, dict(kind='named', kwargs=dict(name=name)))
+        kwz = {k_: (0.0 if not isinstance(v_, (list, tuple, np.ndarray)) else v_) for k_, v_ in kw.items() if k_ in ('p2', 'I2', 'sigma0', 'B2c', 'B2s')}
+        if kwz:
+            oz = Qsc.from_paper(name, nphi=15, **kwz)
+            st.check('caller overrides win over presets', float(any(getattr(oz, k_) != 0.0 for k_ in kwz)), 0.0, dict(kind='named', kwargs=dict(name=name, overrides=kwz)))
         o = Qsc.from_paper(name, etabar=0.77, nphi=15, B0=1.25, order='r1')
         st.check('caller overrides win over presets', float(o.etabar != 0.77 or o.nphi != 15 or o.B0 != 1.25), 0.0, dict(kind='named', kwargs=dict(name=name, overrides=dict(etabar=0.77, nphi=15, B0=1.25))))
         st.distinct.add('named' + name)
@@ -1614,4 +1631,103 @@ def oracle_C16(objs, st=None, nhist=3, hlen=6, n_named=None, seed=0):
     not_adv = [e for e in extra if e not in adv]
     missing = [n for n in Qsc.configurations if n not in inputs.NAMED]
     st.check('the advertised list of names is exactly the accepted set', float(len(not_adv) + len(missing)), 0.0, dict(kind='named', kwargs=dict(accepted_but_not_advertised=[repr(x) for x in not_adv])))
+    return st
+
+
+# ================================================================================================= history = fresh, for every property
+def evaluator_outputs(q, with_shear=True):
+    """results of the evaluation / export methods that a property may talk about (beyond stored attributes)"""
+    import tempfile
+    out = {}
+    r = float(min(0.03 * np.min(q.R0), 0.2 * getattr(q, 'r_singularity', 1e100), 0.1 / np.max(q.curvature)))
+    ph = np.array([0.1, 1.3, 4.0])
+    try:
+        out['B_mag(cyl)'] = q.B_mag(r, 0.4, ph)
+        out['B_mag(boozer)'] = q.B_mag(r, 0.4, ph, Boozer_toroidal=True)
+        out['B_mag(cyl) again'] = q.B_mag(r, 0.9, ph)
+        out['Bfield_cylindrical'] = q.Bfield_cylindrical(r, 0.3)
+        out['grad_B_tensor_cartesian'] = q.grad_B_tensor_cartesian()
+        R_, Z_, P_ = q.to_RZ([[r, 0.3, 0.2], [r, 2.0, 0.5]])
+        out['to_RZ'] = np.array([R_, Z_, P_], dtype=float)
+        R2, Z2, p0 = q.Frenet_to_cylindrical(r, ntheta=3)
+        out['Frenet_to_cylindrical'] = np.array([R2, Z2])
+        if q.order != 'r1':
+            out['grad_grad_B_tensor_cartesian'] = q.grad_grad_B_tensor_cartesian()
+        with tempfile.TemporaryDirectory() as tmp:
+            fn = _os.path.join(tmp, 'input.h')
+            q.to_vmec(fn, r=r, ntheta=5)
+            vals, modes = parse_namelist(fn)
+            out['vmec PHIEDGE/CURTOR/AM'] = np.array([vals['PHIEDGE'], vals['CURTOR']] + list(vals['AM'] if isinstance(vals['AM'], list) else [vals['AM']]), dtype=float)
+            out['vmec RBC'] = np.array([v for (nm, n, m), v in sorted(modes.items()) if nm == 'RBC'])
+        out['min_R0_penalty'] = q.min_R0_penalty()
+        if with_shear and q.order == 'r3':
+            q.calculate_shear()
+            out['iota2'] = q.iota2
+    except ValueError as ex:
+        if 'different signs' not in str(ex):
+            raise
+    return out
+
+
+def oracle_history(objs, st=None, seed=0, label=''):
+    """Every property quantifies over objects however they were reached.  An object moved to new parameters through its
+    DOF interface (set_dofs; also plain attribute assignment + calculate()) must give the same stored outputs and the same
+    evaluator / export results as a fresh object constructed from those parameters."""
+    st = st or Stats()
+    rng = np.random.default_rng(1000 + seed)
+    for c, q0, cap in objs:
+        q = _copy.deepcopy(q0)
+        # first use every evaluator once on the ORIGINAL parameters (so that caches, if any, are populated)
+        try:
+            evaluator_outputs(q)
+        except Exception:
+            pass
+        nf = q.nfourier
+        x = q.get_dofs().copy()
+        kind = int(rng.integers(0, 4))
+        if kind == 0:      # new field unit only (axis unchanged): B0, I2, B2s, B2c times c, p2 times c^2
+            cc = float(rng.choice([0.6, 1.4, 2.5]))
+            x[4 * nf + 6] *= cc; x[4 * nf + 5] *= cc; x[4 * nf + 2] *= cc; x[4 * nf + 3] *= cc; x[4 * nf + 4] *= cc * cc
+            what = 'set_dofs: field unit times %g' % cc
+        elif kind == 1:    # a different axis, pressure switched off
+            x[:4 * nf] *= (1 + 0.05 * rng.normal(size=4 * nf)); x[0] = abs(x[0])
+            x[4 * nf + 4] = 0.0
+            what = 'set_dofs: perturbed axis, p2 = 0'
+        elif kind == 2:    # mirror twin (helicity changes sign for quasi-helical configurations)
+            x[nf:2 * nf] *= -1; x[3 * nf:4 * nf] *= -1; x[4 * nf + 1] *= -1; x[4 * nf + 2] *= -1; x[4 * nf + 5] *= -1
+            what = 'set_dofs: mirror twin'
+        else:              # everything perturbed a little
+            x = x * (1 + 0.03 * rng.normal(size=x.size)); x[0] = abs(x[0]); x[4 * nf + 6] = abs(x[4 * nf + 6]) + 0.05
+            what = 'set_dofs: all parameters perturbed'
+        cid = dict(case_id(c), history=['every evaluator once', what])
+        try:
+            q.set_dofs(x)
+        except Exception as ex:
+            continue
+        if not np.all(np.isfinite(q.sigma)):
+            continue
+        try:
+            f = build(params_of(q))
+        except Exception:
+            continue
+        a, b = numeric_attrs(q), numeric_attrs(f)
+        worst, wn = 0.0, None
+        for k in b:
+            if k in a and k != 'iota2':
+                d = reldiff(a[k], b[k])
+                if d > worst:
+                    worst, wn = d, k
+        st.distinct.add(json_key(c) + what)
+        st.check('after a call history the stored outputs equal those of a fresh object built from the current parameters' + label, worst, 1e-12, cid, detail=dict(worst_attribute=wn))
+        try:
+            ea, eb = evaluator_outputs(q), evaluator_outputs(f)
+        except Exception as ex:
+            continue
+        worst, wn = 0.0, None
+        for k in eb:
+            if k in ea:
+                d = reldiff(ea[k], eb[k])
+                if d > worst:
+                    worst, wn = d, k
+        st.check('after a call history the evaluation / export results equal those of a fresh object' + label, worst, 1e-12, cid, detail=dict(worst_result=wn))
     return st
